@@ -160,6 +160,25 @@ class CStr:
     def rstrip(self, chars=None):
         return self._strip(chars, False, True)
 
+    def replace(self, old, new, count=-1):
+        """str.replace: left-to-right, non-overlapping; every comparison forks on character equality."""
+        old = CStr.lit(old) if isinstance(old, str) else old
+        new = CStr.lit(new) if isinstance(new, str) else new
+        if not isinstance(old, CStr) or not isinstance(new, CStr) or count != -1:
+            raise NotEncodable("str.replace with these arguments on a character-level symbolic string")
+        n = len(old)
+        if n == 0:
+            raise NotEncodable("str.replace of the empty string")
+        out, i = [], 0
+        while i < len(self.chars):
+            if i + n <= len(self.chars) and bool(CStr(self.chars[i : i + n]) == old):
+                out.extend(new.chars)
+                i += n
+            else:
+                out.append(self.chars[i])
+                i += 1
+        return CStr(out)
+
     def removeprefix(self, p):
         p = CStr.lit(p) if isinstance(p, str) else p
         return CStr(self.chars[len(p) :]) if self.startswith(p) else self
